@@ -85,9 +85,9 @@ func init() {
 		TestPkg:    "x/watcher", TestName: "TestZSimC40", Porcupine: true,
 		QuickRuns: 20000, ThoroughRuns: 5000000, QuickBudget: 3 * time.Minute, ThoroughBudget: 40 * time.Minute,
 		MaxStepsQuick: 5000, MaxStepsThor: 20000, Chunk: 1250,
-		Rule: "each run draws a workload (1-3 producers reporting into 2-4 directories, 1-3 fetchers, <=24 operations quick / <=40 thorough, then a wake-up phase and a sweep phase) and a scheduling strategy from its seed; the seeded scheduler decides every interleaving at each lock, unlock-wake, cond wait/broadcast and the map iteration order in Fetch. A run is non-trivial when its history has >=2 completed operations and >=2 context switches; distinct = distinct (event-log hash, workload hash) pairs among non-trivial runs",
-		Real: []string{"x/watcher/changes.go (Changes.FileChanged, EntryDeleted, Fetch, deleteMod) compiled from the working tree", "Go runtime, real goroutines released one at a time"},
-		Stubbed: []string{"sync.Mutex and sync.Cond (simulated inside the scheduler; Signal wakes a seeded choice of waiter, no spurious wake-ups)", "map iteration order in Fetch (seeded permutation of the key snapshot)", "fsnotify event source and the module lookup (Ignore, DirAdded, watch loop) are not exercised"},
+		Rule: "each run draws a workload (1-3 producers reporting into 2-4 directories — FileChanged, EntryDeleted for files and directories, and in 40% of the runs DirAdded over one or two real directory trees below a real watched root — 1-3 fetchers, <=24 operations quick / <=40 thorough, then a wake-up phase and a sweep phase) and a scheduling strategy from its seed; the seeded scheduler decides every interleaving at each lock, unlock-wake, cond wait/broadcast and the map iteration order in Fetch. A run is non-trivial when its history has >=2 completed operations and >=2 context switches; distinct = distinct (event-log hash, workload hash) pairs among non-trivial runs",
+		Real: []string{"x/watcher/changes.go (Changes.FileChanged, EntryDeleted, DirAdded, Ignore, Fetch, lookupMod/deleteMod) compiled from the working tree", "Go runtime, real goroutines released one at a time"},
+		Stubbed: []string{"sync.Mutex and sync.Cond (simulated inside the scheduler; Signal wakes a seeded choice of waiter, no spurious wake-ups)", "map iteration order in Fetch (seeded permutation of the key snapshot)", "the fsnotify event source and watch loop are not exercised (DirAdded, Ignore and the module lookup run for real over a scratch directory)"},
 		Assumptions: []string{"sync.Cond has no spurious wake-ups (documented)", "the standard library is that of go1.26.8", "porcupine v1.3.0 decides linearizability of the recorded history; Unknown (timeout) is counted as inconclusive"},
 	})
 	register(&spec{
@@ -120,7 +120,7 @@ func init() {
 		TestPkg: "x/jsonrpc2", TestName: "TestZSimC38",
 		QuickRuns: 4000, ThoroughRuns: 400000, QuickBudget: 4 * time.Minute, ThoroughBudget: 40 * time.Minute,
 		Chunk: 250,
-		Rule: "each run draws 1-7 messages (calls, notifications, responses with result, error or both; integer ids up to +-2^53 and string ids; method names with quotes, unicode, control characters; parameter JSON from a pool including kilobyte-sized values that cross bufio's buffer) and one of four modes: (0) write with the real framer, read back under three seeded chunkings, under EVERY single split position and with the stream cut at EVERY byte offset (EOF or an I/O error, alone or together with the last bytes); (1) the writer's stream fails at a seeded byte offset, plus cancelled contexts for Read and Write; (2) sixteen kinds of definitely malformed frame from an independent reference framer placed at a seeded position between valid frames; (3) seeded byte flips. Non-trivial = at least 2 judged sub-cases; distinct = distinct (sub-case hash, workload hash) pairs",
+		Rule: "each run draws 1-7 messages (calls, notifications, responses with result, error or both; integer ids over the whole int64 range and string ids; method names with quotes, unicode, control characters; parameter JSON from a pool including kilobyte-sized values that cross bufio's buffer) and one of four modes: (0) write with the real framer, read back under three seeded chunkings, under EVERY single split position and with the stream cut at EVERY byte offset (EOF or an I/O error, alone or together with the last bytes); (1) the writer's stream fails at a seeded byte offset; one stream call fails part-way; the first stream call of one message's Write is refused with 0 bytes accepted and the message is or is not retried; an unencodable message in between; contexts cancelled before a Read/Write and, for Read, at a seeded read of the underlying stream while the Read is in progress (then retried with a live context); (2) sixteen kinds of definitely malformed frame from an independent reference framer placed at a seeded position between valid frames; (3) seeded byte flips. Non-trivial = at least 2 judged sub-cases; distinct = distinct (sub-case hash, workload hash) pairs",
 		Real: []string{"x/jsonrpc2/frame.go (HeaderFramer reader and writer), messages.go (EncodeMessage, DecodeMessage, NewCall, NewNotification, Response), wire.go compiled from the working tree (not instrumented: the code is sequential)", "bufio, encoding/json"},
 		Stubbed: []string{"the byte streams (simulated io.Reader / io.Writer: chunk sizes, (0,nil) reads, data delivered together with the final error, failure at a byte offset)"},
 		Assumptions: []string{"encoding/json (with UseNumber) decides JSON equality of params and results", "ids beyond +-2^53 are outside the default alphabet (decoding goes through float64)", "corrupted streams are only required to terminate without panic; absurd Content-Length values are capped at 64 KiB by the harness"},
@@ -185,7 +185,7 @@ func init() {
 		QuickRuns: 3000, ThoroughRuns: 300000, QuickBudget: 4 * time.Minute, ThoroughBudget: 40 * time.Minute,
 		Chunk: 190,
 		Post:  c26StraceFidelity,
-		Rule: "each run draws a module directory with 1-5 files (.xgo/.gop/.go/.gox; unformatted, already formatted or syntactically invalid; modes 0644/0600/0664/0640/0755/0444; optionally in a sub-directory), an invocation (file arguments, directory, dir/...) x (plain, --smart, --smart -mvgo, -t, -n) and whether one file-system operation fails (ENOSPC with a short write, EIO, EACCES, EMFILE, EPERM at a seeded operation). A reference run without faults gives the expected formatted content; then EVERY crash point of the judged run is evaluated (before the first mutating operation, after each one, and inside writes at a seeded split). Non-trivial = the run rewrites at least one file; distinct = distinct (operation-log hash, workload hash) pairs",
+		Rule: "each run draws a module directory with 1-5 files (.xgo/.gop/.go/.gox; unformatted, already formatted or syntactically invalid; modes 0644/0600/0664/0640/0755/0444; optionally in a sub-directory; ~12% symbolic links to sources outside the tree, a relative link next to a same-named file, and in a quarter of the runs neighbours whose names extend a source's name: further sources f.gox/f.gop and bystanders f.go~/f.go.orig that must survive untouched), the process umask, an invocation (file arguments, directory, dir/...) x (plain, --smart, --smart -mvgo, -t, -n) and whether one file-system operation fails (ENOSPC with a short write, EIO, EACCES, EMFILE, EPERM at a seeded operation). A reference run without faults gives the expected formatted content; then EVERY crash point of the judged run is evaluated (before the first mutating operation, after each one, and inside writes at a seeded split). Non-trivial = the run rewrites at least one file; distinct = distinct (operation-log hash, workload hash) pairs",
 		Real: []string{"cmd/internal/gopfmt/fmt.go (flag parsing, walker, gopfmt, writeFileWithBackup, report) compiled from the working tree", "the real formatter, parser and module loader", "a real directory on tmpfs: every operation is forwarded to the kernel"},
 		Stubbed: []string{"package os as seen by fmt.go (simos: op log, crash-point hooks, error injection, os.Exit as a recoverable panic)", "process kill: modelled as 'completed system calls survive, nothing else happens' and evaluated by inspecting the directory at each point instead of killing and restarting"},
 		Assumptions: []string{"process-crash model (SIGKILL), not power loss: no fsync/ordering semantics are assumed", "the formatter's output for a file is what an undisturbed run of the same command produces", "rename(2) over an existing file is atomic"},
